@@ -73,7 +73,7 @@ void *hxw_realloc(void *old, size_t n) {
     if (should_fail(__builtin_return_address(0), 3)) return NULL;
     int64_t oldsz = (old != NULL && hxa_counting) ? (int64_t) malloc_usable_size(old) : 0;
     void *p = realloc(old, n);
-    { extern uint64_t hx_cost_bytes; extern int hx_cost_on; if (hx_cost_on && p != NULL && p != old && old != NULL) hx_cost_bytes += (uint64_t) oldsz; }
+    { extern uint64_t hx_cost_bytes; extern __thread int hx_cost_on; if (hx_cost_on && p != NULL && p != old && old != NULL) hx_cost_bytes += (uint64_t) oldsz; }
     if (hxa_counting) {
         if (p != NULL) {
             if (old == NULL) hxa_live_blocks++;
